@@ -122,6 +122,16 @@ def rec_pair(seed):
     name = rng.choice(['com', 'quadratic', '1dg', '2dg'])
     rel = rng.choice(['flipx', 'flipy', 'rot180', 'transpose', 'rescale', 'maskedvalues'])
     h, w = rng.randint(9, 15), rng.randint(9, 15)
+    qkw = None
+    if name == 'quadratic' and rng.random() < 0.5:
+        # explicit fit / search boxes, also larger than the (non-square) cutout: they are clipped to it axis by axis
+        h, w = rng.choice([(7, 15), (8, 13), (15, 7), (9, 9), (11, 14)])
+        qkw = {'fit_boxsize': rng.choice([5, 7, 9, 11, (5, 9), (9, 5)])}
+        if rng.random() < 0.7:
+            qkw['search_boxsize'] = rng.choice([7, 9, 11, 13, (7, 11), (11, 7)])
+            qkw['xpeak'], qkw['ypeak'] = rng.randint(2, w - 3), rng.randint(2, h - 3)     # the search box around the guess decides which peak is fitted
+        if rng.random() < 0.6:
+            rel = 'transpose'
     y, x = np.mgrid[:h, :w]
     data = np.zeros((h, w))
     for _ in range(rng.randint(1, 2)):
@@ -150,9 +160,23 @@ def rec_pair(seed):
         e2 = e1 * (d2.flat[0] / data.flat[0] if rel == 'rescale' else 1.0)
         if rel == 'maskedvalues':
             e2 = e1.copy(); e2[mask] = rng.choice([1e6, 1e-6])
-    f = funcs()[name]
+    f = f2 = funcs()[name]
+    if qkw:
+        import functools
+        f = functools.partial(f, **qkw)
+        q2 = dict(qkw)
+        if rel == 'transpose':
+            q2 = {k: (v[::-1] if isinstance(v, tuple) else v) for k, v in qkw.items()}
+            if 'xpeak' in qkw:
+                q2['xpeak'], q2['ypeak'] = qkw['ypeak'], qkw['xpeak']
+        elif 'xpeak' in qkw:
+            if rel in ('flipx', 'rot180'):
+                q2['xpeak'] = w - 1 - qkw['xpeak']
+            if rel in ('flipy', 'rot180'):
+                q2['ypeak'] = h - 1 - qkw['ypeak']
+        f2 = functools.partial(f2, **q2)
     r1 = call(f, data.copy(), None if mask is None else mask.copy(), e1)
-    r2 = call(f, np.ascontiguousarray(d2), None if m2 is None else np.ascontiguousarray(m2), e2)
+    r2 = call(f2, np.ascontiguousarray(d2), None if m2 is None else np.ascontiguousarray(m2), e2)
     return {'id': seed, 'kind': 'pair', 'func': name, 'rel': rel, 'with_error': e1 is not None, 'w': w, 'h': h, 'isnan1': r1 is None, 'isnan2': r2 is None,
             'x1': fx(r1[0]) if r1 else 0, 'y1': fx(r1[1]) if r1 else 0, 'x2': fx(r2[0]) if r2 else 0, 'y2': fx(r2[1]) if r2 else 0}
 
